@@ -18,6 +18,13 @@ def run(v, tier, replay):
     sd = lib.scratch("vf-c09-")
     tr = os.path.join(sd, "mux.ndjson")
     rc, so, se = lib.run([binp, tr, str(lib.seed()), "1" if thorough else "0"], timeout=3000)
+    if rc == 3:
+        evs = lib.read_ndjson(tr)
+        pend = sorted({e["sc"] for e in evs if e["ev"] == "reset"} - {e["sc"] for e in evs if e["ev"] == "end"} - {-1})
+        names = {e["sc"]: e.get("name") for e in evs if e["ev"] == "reset"}
+        v.violation("driver stuck: scenarios %s did not finish within the watchdog time - a create/write/close/accept call never returned, or a remotely opened tube was never offered" % sorted({re.sub(r"^(reuse-\d+-creators(-lossy)?).*", r"\1", names.get(s, "?")) for s in pend}),
+                    "real muxer pair over the scripted network; every wait in the driver is bounded except library calls", dict(pending=[names.get(s) for s in pend]))
+        return
     if rc != 0:
         raise lib.Inconclusive("tubemux failed: " + (so + se)[-3000:])
     evs = lib.read_ndjson(tr)
@@ -57,6 +64,8 @@ def run(v, tier, replay):
             sig = "scenario %s: accepted tube id %s rel=%s type %s carries bytes of instance %s (opened with type %s), pure=%s" % (re.sub(r"^(reuse-\d+-creators(-lossy)?).*", r"\1", name), e["id"], e["rel"], e["type"], e["inst"], c["type"] if c else "?", e["pure"])
         elif e["ev"] == "create":
             sig = "scenario %s: two live tubes of end %s got the same id %s" % (name, e["end"], e["id"])
+        elif e["ev"] == "unrelseq":
+            sig = "unreliable tube sharing its id with a lossy reliable tube, lagging reader: %d written, %d read, %d of them never written on that tube (intact=%s)" % (e["wrote"], e["got"], e["extra"], e["intact"])
         elif e["ev"] == "unrel":
             sig = "unreliable message of %d bytes: wrote=%s ret=%s read=%s same=%s" % (e["size"], e["wrote"], e["ret"], e["got"], e["same"])
         else:
@@ -64,7 +73,7 @@ def run(v, tier, replay):
         v.violation(sig, "real muxer pair over the scripted network, judged by Trace_HopMux", e)
     # every created instance must eventually have been offered (exactly once is judged above)
     for sc in by:
-        if names[sc].startswith("reuse"):
+        if names[sc].startswith("reuse") or names[sc].startswith("idle"):
             acc = {e["inst"] for e in by[sc] if e["ev"] == "accept"}
             for e in by[sc]:
                 if e["ev"] == "create" and e["inst"] not in acc:
